@@ -6,7 +6,8 @@ from mygrad.operation_base import Operation
 class Where(Operation):
     def __call__(self, a, b, *, condition):
         self.variables = (a, b)
-        self.condition = np.asarray(condition, dtype=bool)
+        # (a copy: the caller may go on to mutate the array that specified the condition)
+        self.condition = np.array(condition, dtype=bool)
         return np.where(self.condition, a.data, b.data)
 
     def backward_var(self, grad, index, **kwargs):
